@@ -45,7 +45,7 @@ func (x *Exec) symString(name string, n int, exact bool) *StrVal {
 	for i := range in.B {
 		in.B[i] = tb.Var(fmt.Sprintf("%s#%d", name, i), 8)
 	}
-	if exact {
+	if exact || n == 0 {
 		in.Len = tb.Int64(int64(n))
 	} else {
 		lv := tb.Var(name+"#len", 8)
@@ -184,6 +184,17 @@ func init() {
 	})
 	// Fork(v): case split on the small-range integer v. The state is split into one state per
 	// feasible value, each tagged so that they are not merged again before the matching Join().
+	// Quiesce lets every other runnable goroutine run until it blocks or ends, then continues.
+	blockingIntrinsics[p+"Quiesce"] = func(x *Exec, s *State, c *CallCtx) (Value, bool) {
+		for i, t := range s.Threads {
+			if i != s.Cur && !t.Done && t.Blocked == nil {
+				s.Cur = i
+				x.push(s)
+				return nil, true
+			}
+		}
+		return nil, false
+	}
 	blockingIntrinsics[p+"Regroup"] = func(x *Exec, s *State, c *CallCtx) (Value, bool) {
 		// Regroup(v) = Join immediately followed by Fork(v), without merging in between: states
 		// regroup by the value v
